@@ -255,7 +255,7 @@ func Variants(ds []gen.Decl) (out []variant, skipped int) {
 		for _, w := range []struct{ kind, text string }{
 			{"self-unify", pe + " & " + pe}, {"unify-top", pe + " & _"}, {"top-unify", "_ & " + pe}, {"embed-wrap", "{" + e + "}"},
 		} {
-			if w.kind == "embed-wrap" && crashRisk(ds) {
+			if false && w.kind == "embed-wrap" && crashRisk(ds) { // crash fixed by 39e9a14; kept for reference
 				// C02 known finding (stack overflow: bound embedded in a struct
 				// literal + selector into it): crashes the process, so it cannot
 				// be compared here. Counted as unclaimed.
